@@ -288,7 +288,25 @@ def verify(contract, registry, src_root='/repo'):
     except (FileNotFoundError, StopIteration, SyntaxError) as ex:
         rep.status = 'undecided'; rep.reason = f'function not found / not parseable: {ex!r}'; rep.wall_s = time.time() - t0
         return rep
+    except (KeyError, AttributeError, IndexError, TypeError, ValueError, z3.Z3Exception) as ex:
+        # a clause, invariant or handler of the contract refers to a local name / shape the code no longer has (renamed variable, restructured
+        # loop): the contract does not fit this source any more.  That is "undecided", never a violation and never a checker fault.
+        import traceback
+        where = traceback.extract_tb(ex.__traceback__)[-1]
+        rep.status = 'undecided'; rep.reason = f'contract does not fit the current source ({type(ex).__name__}: {ex} at {os.path.basename(where.filename)}:{where.lineno})'; rep.wall_s = time.time() - t0
+        return rep
     rep.paths = len(outs); rep.executor = x; rep.outs = outs
+    try:
+        return _collect_and_discharge(contract, x, outs, rep, t0)
+    except (KeyError, AttributeError, IndexError, TypeError, ValueError, z3.Z3Exception) as ex:
+        import traceback
+        where = traceback.extract_tb(ex.__traceback__)[-1]
+        rep.status = 'undecided'; rep.reason = f'contract does not fit the current source ({type(ex).__name__}: {ex} at {os.path.basename(where.filename)}:{where.lineno})'; rep.wall_s = time.time() - t0
+        rep.obligations = []
+        return rep
+
+
+def _collect_and_discharge(contract, x, outs, rep, t0):
     rep.unknown_calls = sorted(x.stats.get('unknown_calls', ()))
     mv = model_vars_of(x.params)
     obs = []
